@@ -17,8 +17,7 @@ deriving Repr, BEq
 /-- model of `heavy.find_roots` as used by the weights setter: the weight function is sampled at
 the knots and at 100 open nodes per span; an exact zero sample makes the code fail with
 AttributeError (`tuple.pop`), a sign change between consecutive samples is reported as a root. -/
-def weightsCheck (k : KV) (ws : List Rat) : Except Err Unit := do
-  if ws.length != k.npts then throw .value
+def weightsSampleCheck (k : KV) (ws : List Rat) : Except Err Unit := do
   if ws.all (fun w => decide (0 < w)) then return ()
   let ks := k.knots
   let nodes0 := openLinspace 100
@@ -33,20 +32,23 @@ def weightsCheck (k : KV) (ws : List Rat) : Except Err Unit := do
   if signChange vals then throw .value
   return ()
 
+def weightsCheck (k : KV) (ws : List Rat) : Except Err Unit :=
+  if ws.length != k.npts then .error .value else weightsSampleCheck k ws
+
 namespace Curve
 
 def npts (c : Curve) : Nat := c.kv.npts
 def degree (c : Curve) : Nat := c.kv.deg
 
 /-- constructor + the `ctrlpoints` and `weights` setters -/
-def mk? (k : KV) (P : Option (List Vec)) (W : Option (List Rat)) : Except Err Curve := do
-  match P with
-  | some pts => if pts.length != k.npts then throw .value
-  | none => pure ()
-  match W with
-  | some ws => weightsCheck k ws
-  | none => pure ()
-  return ⟨k, P, W⟩
+def mk? (k : KV) (P : Option (List Vec)) (W : Option (List Rat)) : Except Err Curve :=
+  if (match P with | some pts => pts.length != k.npts | none => false) then .error .value
+  else match W with
+    | none => .ok ⟨k, P, W⟩
+    | some ws =>
+      match weightsCheck k ws with
+      | .ok _ => .ok ⟨k, P, W⟩
+      | .error e => .error e
 
 /-- `Curve.eval` at one node -/
 def eval (c : Curve) (u : Rat) : Except Err Vec := do
@@ -66,15 +68,15 @@ def unweighted (ws : List Rat) (pts : List Vec) : List Vec := List.zipWith (fun 
 def apply (c : Curve) (newk : KV) (m : Mat) : Except Err Curve := do
   match c.P, c.W with
   | none, none => return { c with kv := newk }
-  | P, none => return ⟨newk, P.map (matPts m), none⟩
+  | P, none => Curve.mk? newk (P.map (matPts m)) none      -- the `ctrlpoints` setter validates the count
   | P, some ws =>
     let ws' := matVec m ws
     weightsCheck newk ws'
     match P with
-    | none => return ⟨newk, none, some ws'⟩
+    | none => Curve.mk? newk none (some ws')
     | some pts =>
       if ws'.any (· == 0) then throw .other
-      return ⟨newk, some (unweighted ws' (matPts m (weighted ws pts))), some ws'⟩
+      Curve.mk? newk (some (unweighted ws' (matPts m (weighted ws pts)))) (some ws')
 
 /-- `Curve.knot_insert(nodes)` -/
 def knotInsert (c : Curve) (nodes : List Rat) : Except Err Curve := do
@@ -111,13 +113,20 @@ def updatePoly (k : KV) (pts : List Vec) (newk : KV) (tol : Option Rat) (nodes :
 def update (c : Curve) (newk : KV) (tol : Option Rat) (nodes : Option (List Rat)) : Except Err Curve := do
   if newk == c.kv then return c
   match c.P with
-  | none => return { c with kv := newk }
+  | none =>
+    match c.W with
+    | none => return { c with kv := newk }
+    | some ws =>
+      -- weights without control points: refit the weights spline, validate, then replace
+      if c.kv.limits != newk.limits then throw .value
+      let den ← updatePoly c.kv (ws.map fun w => [w]) newk tol nodes
+      Curve.mk? newk none (some (den.map fun d => d.getD 0 0))
   | some pts =>
     if c.kv.limits != newk.limits then throw .value
     match c.W with
     | none =>
       let q ← updatePoly c.kv pts newk tol nodes
-      return ⟨newk, some q, none⟩
+      Curve.mk? newk (some q) none
     | some ws =>
       let num ← updatePoly c.kv (weighted ws pts) newk tol nodes
       let den ← updatePoly c.kv (ws.map fun w => [w]) newk tol nodes
@@ -184,7 +193,11 @@ def cleanLoop : Nat → Curve → Rat → Curve
       match func2func c1.kv (some ws) c1.kv (some (List.replicate c1.npts 1)) none with
       | .ok (T, E) =>
         let err := rmax (quadFormMax E pts) (dot ws (matVec E ws))
-        if err < tol then cleanLoop f ⟨c1.kv, some (matPts T pts), none⟩ tol else c1
+        if err < tol then
+          match Curve.mk? c1.kv (some (matPts T pts)) none with
+          | .ok c2 => cleanLoop f c2 tol
+          | .error _ => c1
+        else c1
       | .error _ => c1
     | _, _ => c1
 
